@@ -150,6 +150,9 @@ def run(ctx):
         snap = trees.snapshot(o)
         info = {"tree": d, "ok": sorted(map(list, ok_paths)), "ko": sorted(map(list, ko_paths))}
         outs = {}
+        if rng.random() < 0.06:
+            trees.poison(rng, d, lambda t: marker(t, {(), (1,)}, {(0,)}, parcimonious=rng.random() < 0.5))
+            ctx.count("history: call that fails half-way")
         for parci in (True, False):
             try:
                 outs[parci] = marker(o, set(ok_paths), set(ko_paths), parcimonious=parci)
